@@ -21,7 +21,9 @@ def cases(seed, tier, broken=()):
         out.append({"cls": cls, "mseed": int(rng.integers(0, 2**31)), "n": int(rng.integers(40, 90)), "px": int(rng.integers(2, 9)), "py": int(rng.integers(2, 7)),
                     "alpha": [float(rng.choice([0.0, 0.2, 0.5, 0.8, 1.0, float(rng.uniform(0, 1))])) for _ in range(2)],
                     "pca": str(rng.choice(["off", "off", "all", "trunc"])), "k": int(rng.integers(1, 5)),
-                    "standardize": bool(rng.random() < 0.3), "mixed_units": bool(rng.random() < 0.3), "wide": bool(rng.random() < 0.15)})
+                    "standardize": bool(rng.random() < 0.3), "mixed_units": bool(rng.random() < 0.3), "wide": bool(rng.random() < 0.15),
+                    # a lagged analysis: the second field carries OTHER sample labels (partly overlapping); samples are paired by position
+                    "shifted_labels": bool(i % 5 == 2)})
     return out
 
 
@@ -47,7 +49,7 @@ def fields(case):
     X = X + 3.0
     Y = Y - 1.0
     Xd = xr.DataArray(X, dims=("time", "x"), coords={"time": np.arange(n), "x": np.arange(px)}, name="X")
-    Yd = xr.DataArray(Y, dims=("time", "y"), coords={"time": np.arange(n), "y": np.arange(py)}, name="Y")
+    Yd = xr.DataArray(Y, dims=("time", "y"), coords={"time": np.arange(n) + (3 if case.get("shifted_labels") else 0), "y": np.arange(py)}, name="Y")
     return Xd, Yd
 
 
